@@ -234,6 +234,9 @@ type c09PingPongHB struct {
 }
 
 func (c09PingPongHB) Name() string { return "xproto-pingpong-hb" }
+
+// (the runtime threshold changes are enumerated by the unit xproto-pingpong, not again with heartbeats)
+func (c09PingPongHB) LimitEvents() (int, []uint32) { return 0, nil }
 func (c09PingPongHB) NewPool(ctx context.Context, host types.Host) types.ConnectionPool {
 	c09KAInit()
 	p := NewConnPool(ctx, c09pphb, host)
